@@ -66,7 +66,7 @@ macro "go_total" : tactic => `(tactic| (
   repeat' (first | (intro _) | constructor)
   all_goals first | trivial | omega |
     (try simp only [bne_iff_ne, beq_iff_eq, ne_eq, Bool.not_eq_true, Bool.not_eq_false, decide_eq_true_eq, decide_eq_false_iff_not,
-       Decidable.not_not, Int.reduceToNat, Bool.false_eq_true, Bool.true_eq_false, Int.ofNat_eq_natCast] at *
+       Decidable.not_not, Int.reduceToNat, Bool.false_eq_true, Bool.true_eq_false, Int.ofNat_eq_natCast, len_eq, Nat.sub_zero] at *
      try simp only [decide_eq_false_iff_not, decide_eq_true_eq, Decidable.not_not] at *
      omega)))
 
